@@ -15,7 +15,8 @@
 (* The model is an algebra, not a machine: there is no history.            *)
 (*                                                                         *)
 (*   script values  v ::= int z | flo f | str s | chr c | bool b | void    *)
-(*                      | sym | rat | list <v..> | vec <v..> | hash <<k,v>..>*)
+(*                      | sym | rat | list <v..> | vec <v..> | mvec <v..>   *)
+(*                      | hash <<k,v>..>                                   *)
 (*                      | set <v..> | okS v | errS v | p(x, s) | q         *)
 (*   host types     T ::= iN | uN | isize | usize | f32 | f64 | bool | char*)
 (*                      | String | () | Option<T> | Vec<T> | HashMap<K, V> *)
@@ -48,8 +49,9 @@
 (*                                                                         *)
 (* Named deviations of Steel adopted on purpose (all documented in         *)
 (* docs/src/engine/register_function.md or fixed by maintainer tests):     *)
-(*  D1 Vec<T> -> list; a list OR a vector converts to Vec<T>               *)
-(*     (conversions.rs tests vec_into_list, vec_from_list, vec_from_vector)*)
+(*  D1 Vec<T> -> list; a list OR an immutable vector converts to Vec<T>    *)
+(*     (conversions.rs tests vec_into_list, vec_from_list, vec_from_vector);*)
+(*     a MUTABLE vector, what (vector ..) makes, is a different kind       *)
 (*  D2 Option<T>: None <-> #false, Some(x) <-> x ("Option<T> -> if Some(T) *)
 (*     then T else #false").  The encoding is not injective: Some(false)   *)
 (*     and Some(None) come back as None; Back() models exactly that.       *)
@@ -78,11 +80,7 @@ vars == <<c>>
 RECURSIVE DblC(_, _), Pow2(_), Inc(_), DecR(_), Trim(_), CmpAt(_, _, _), NatStrFrom(_, _)
 DblC(d, carry) == IF d = << >> THEN (IF carry = 0 THEN << >> ELSE <<carry>>)
                   ELSE LET x == 2 * Head(d) + carry IN <<x % 10>> \o DblC(Tail(d), x \div 10)
-Dbl(d) == DblC(d, 0)
-Dbl4(d) == Dbl(Dbl(Dbl(Dbl(d))))
-Dbl16(d) == Dbl4(Dbl4(Dbl4(Dbl4(d))))
-\* (recursion depth k/16 + 15: TLC evaluates constant definitions on a small stack when it has several workers)
-Pow2(k) == IF k = 0 THEN <<1>> ELSE IF k >= 16 THEN Dbl16(Pow2(k - 16)) ELSE Dbl(Pow2(k - 1))
+Pow2(k) == IF k = 0 THEN <<1>> ELSE DblC(Pow2(k - 1), 0)
 Inc(d) == IF d = << >> THEN <<1>>
           ELSE IF Head(d) < 9 THEN <<Head(d) + 1>> \o Tail(d) ELSE <<0>> \o Inc(Tail(d))
 DecR(d) == IF Head(d) > 0 THEN <<Head(d) - 1>> \o Tail(d) ELSE <<9>> \o DecR(Tail(d))    \* d > 0
@@ -147,10 +145,11 @@ VStr(s) == [k |-> "str", s |-> s]          \* s: [cps, lit]
 VChr(cp) == [k |-> "chr", cp |-> cp]
 VBool(b) == [k |-> "bool", b |-> b]
 VVoid == [k |-> "void"]
-VSym == [k |-> "sym", s |-> [cps |-> <<97, 98, 99>>, lit |-> "abc"]]
+VSym == [k |-> "sym", s |-> [cps |-> <<97, 98, 99>>, lit |-> "\"abc\""]]
 VRat == [k |-> "rat"]
 VList(xs) == [k |-> "list", xs |-> xs]
-VVec(xs) == [k |-> "vec", xs |-> xs]
+VVec(xs) == [k |-> "vec", xs |-> xs]          \* immutable vector
+VMVec(xs) == [k |-> "mvec", xs |-> xs]        \* mutable vector: (vector ...)
 VHash(kvs) == [k |-> "hash", kvs |-> kvs]
 VSet(xs) == [k |-> "set", xs |-> xs]
 VOk(x) == [k |-> "okS", x |-> x]
@@ -179,7 +178,7 @@ SNul == S(<<97, 0, 98>>, "")
 \* f32: "exact" (is an f32) | "over" | "under" | "round" (finite, not an f32)
 F(id, src, h64, h32, pr, f32) == [id |-> id, src |-> src, h64 |-> h64, h32 |-> h32, pr |-> pr, f32 |-> f32]
 Flos == <<F("zero", "0.0", "0.0", "0.0", "0.0", "exact"),
-          F("nzero", "-0.0", "-0.0", "-0.0", "-0.0", "exact"),
+          F("nzero", "(- 0.0)", "-0.0", "-0.0", "-0.0", "exact"),
           F("1.5", "1.5", "1.5", "1.5", "1.5", "exact"),
           F("-2.5", "-2.5", "-2.5", "-2.5", "-2.5", "exact"),
           F("pinf", "+inf.0", "inf", "inf", "+inf.0", "exact"),
@@ -246,6 +245,26 @@ ConvKVs(K, V, kvs) ==
            rs == ConvKVs(K, V, Tail(kvs)) IN
          IF rk.ok /\ rv.ok /\ rs.ok THEN OK(<<<<rk.h, rv.h>>>> \o rs.h) ELSE FAIL
 
+\* WHY a conversion fails ("" when it does not): the first failing leaf, in the order Conv visits them
+RECURSIVE Why(_, _), WhyAll(_, _), WhyKVs(_, _, _)
+Why(T, v) ==
+  CASE T.t = "int" -> IF v.k # "int" THEN "kind" ELSE IF InRange(T, v.z) THEN "" ELSE "range-" \o T.name
+    [] T.t = "f32" -> IF v.k # "flo" THEN "kind" ELSE IF v.f.f32 = "exact" THEN "" ELSE "f32-" \o v.f.f32
+    [] T.t = "opt" -> IF v.k = "bool" /\ ~v.b THEN "" ELSE Why(T.of, v)
+    [] T.t = "vec" -> IF v.k \in {"list", "vec"} THEN WhyAll(T.of, v.xs) ELSE "kind"
+    [] T.t = "set" -> IF v.k = "set" THEN WhyAll(T.of, v.xs) ELSE "kind"
+    [] T.t = "map" -> IF v.k = "hash" THEN WhyKVs(T.key, T.val, v.kvs) ELSE "kind"
+    [] T.t = "pair" -> IF v.k = "list" /\ Len(v.xs) = 2
+                         THEN (IF Why(T.a, v.xs[1]) # "" THEN Why(T.a, v.xs[1]) ELSE Why(T.b, v.xs[2]))
+                         ELSE "kind"
+    [] T.t = "res" -> IF v.k = "okS" THEN Why(T.a, v.x) ELSE IF v.k = "errS" THEN Why(T.b, v.x) ELSE "kind"
+    [] OTHER -> IF Conv(T, v).ok THEN "" ELSE "kind"
+WhyAll(T, xs) == IF xs = << >> THEN "" ELSE IF Why(T, Head(xs)) # "" THEN Why(T, Head(xs)) ELSE WhyAll(T, Tail(xs))
+WhyKVs(K, V, kvs) ==
+  IF kvs = << >> THEN ""
+  ELSE IF Why(K, Head(kvs)[1]) # "" THEN Why(K, Head(kvs)[1])
+  ELSE IF Why(V, Head(kvs)[2]) # "" THEN Why(V, Head(kvs)[2])
+  ELSE WhyKVs(K, V, Tail(kvs))
 \* host value of type T -> the script value it must become
 Into(T, h) ==
   CASE T.t \in {"int", "f64", "f32", "bool", "char", "string", "unit", "p", "pref", "pmut"} -> h
@@ -270,11 +289,12 @@ Src(v) ==
     [] v.k = "str" -> StrSrc(v.s)
     [] v.k = "chr" -> "(integer->char " \o ToString(v.cp) \o ")"
     [] v.k = "bool" -> IF v.b THEN "#t" ELSE "#f"
-    [] v.k = "void" -> "(void)"
+    [] v.k = "void" -> "void"
     [] v.k = "sym" -> "'abc"
     [] v.k = "rat" -> "1/2"
     [] v.k = "list" -> "(list" \o SrcAll(v.xs) \o ")"
-    [] v.k = "vec" -> "(vector" \o SrcAll(v.xs) \o ")"
+    [] v.k = "vec" -> "(immutable-vector" \o SrcAll(v.xs) \o ")"
+    [] v.k = "mvec" -> "(vector" \o SrcAll(v.xs) \o ")"
     [] v.k = "hash" -> "(hash" \o SrcKVs(v.kvs) \o ")"
     [] v.k = "set" -> "(hashset" \o SrcAll(v.xs) \o ")"
     [] v.k = "okS" -> "(Ok " \o Src(v.x) \o ")"
@@ -331,7 +351,7 @@ ChrVals == {VChr(cp) : cp \in {0, 65, 955, 55295, 57344, 65533, 1114111}}
 BoolVals == {VBool(TRUE), VBool(FALSE)}
 \* one value of every other kind
 Kinds == {VI(1), VFlo(Flo("1.5")), VStr(SA), VChr(97), VBool(TRUE), VBool(FALSE), VVoid, VSym, VRat,
-          VList(<< >>), VList(<<VI(1)>>), VVec(<<VI(1)>>), VHash(<<<<VStr(SA), VI(1)>>>>), VSet(<<VI(1)>>),
+          VList(<< >>), VList(<<VI(1)>>), VVec(<<VI(1)>>), VMVec(<<VI(1)>>), VHash(<<<<VStr(SA), VI(1)>>>>), VSet(<<VI(1)>>),
           VOk(VI(1)), VErr(VStr(SA)), VP(ZSmall(5), SHi), VQ}
 
 T_i32 == TInt("i32")
@@ -356,7 +376,7 @@ Cands(T) ==
     [] T.name = "opt-opt-i32" -> {VBool(FALSE), VI(7), VStr(SA)}
     [] T.name = "opt-vec-i32" -> {VBool(FALSE), VList(<< >>), VList(<<VI(1), VI(2)>>), VList(<<VBool(FALSE)>>)}
     [] T.name = "vec-i32" -> {VList(<< >>), VList(<<VI(1), VI(-2), I32Max>>), VVec(<<VI(3), VI(4)>>), VVec(<< >>),
-                              VList(<<VI(1), I32Over>>), VList(<<VI(1), VStr(SA)>>), VVec(<<VI(1), VFlo(Flo("1.5"))>>),
+                              VList(<<VI(1), I32Over>>), VList(<<VI(1), VStr(SA)>>), VVec(<<VI(1), VFlo(Flo("1.5"))>>), VMVec(<<VI(3), VI(4)>>),
                               VI(1), VHash(<< >>), VSet(<<VI(1)>>)}
     [] T.name = "vec-u8" -> {VList(<<VI(0), VI(255)>>), VList(<<VI(256)>>), VList(<<VI(-1)>>)}
     [] T.name = "vec-string" -> {VList(<<VStr(SEmpty), VStr(SUni)>>), VList(<<VStr(SA), VI(1)>>), VList(<<VSym>>)}
@@ -396,7 +416,8 @@ Values(T) ==
 (* 7. Behaviours *)
 YN(b) == IF b THEN "ok" ELSE "err"
 VTag(T, v) == IF v.k = "int" THEN ZStr(v.z) ELSE IF v.k = "flo" THEN v.f.id ELSE v.k
-Tag(fam, T, dir, v, ok) == "conv|fam=" \o fam \o "|ty=" \o T.name \o "|dir=" \o dir \o "|v=" \o VTag(T, v) \o "|exp=" \o YN(ok) \o "|"
+Tag(fam, T, dir, v, ok) == "conv|fam=" \o fam \o "|ty=" \o T.name \o "|dir=" \o dir \o "|v=" \o VTag(T, v) \o "|exp=" \o YN(ok)
+                           \o "|why=" \o (IF v.k = "host-only" THEN "" ELSE Why(T, v)) \o "|"
 
 \* (id-T v): script -> host -> script
 ArgCase(fam, T, v) ==
@@ -476,10 +497,10 @@ IntoKeys ==
   \cup {[fam |-> "intostr", s |-> s] : s \in {SEmpty, SHello, SUni, SEsc, SNul}}
 IntoCaseOf(key) ==
   IF key.fam = "into128"
-    THEN [tag |-> "conv|fam=into|ty=u128|dir=into|v=" \o ZStr(key.z) \o "|exp=ok|",
+    THEN [tag |-> "conv|fam=into|ty=u128|dir=into|v=" \o ZStr(key.z) \o "|exp=ok|why=|",
           steps |-> <<[h |-> "into", ty |-> "u128", host |-> ZStr(key.z), name |-> "ex@@", src |-> "#host into u128", class |-> "ok"],
                       [src |-> "(emit ex@@)", class |-> "ok", emit |-> <<ZStr(key.z)>>]>>]
-    ELSE [tag |-> "conv|fam=into|ty=str|dir=into|v=str|exp=ok|",
+    ELSE [tag |-> "conv|fam=into|ty=str|dir=into|v=str|exp=ok|why=|",
           steps |-> <<[h |-> "into", ty |-> "str", host |-> [cps |-> key.s.cps], name |-> "ex@@", src |-> "#host into &str", class |-> "ok"],
                       [src |-> "(emit (equal? ex@@ " \o StrSrc(key.s) \o "))", class |-> "ok", emit |-> <<"#true">>]>>]
 
@@ -511,9 +532,14 @@ RECURSIVE ASrcAll(_)
 ASrcAll(xs) == IF xs = << >> THEN "" ELSE " " \o ASrc(Head(xs)) \o ASrcAll(Tail(xs))
 GoodArgs(sh) == [i \in 1..Len(sh.params) |-> Good(sh.params[i], i)]
 CallOK(sh, args) == Len(args) = Len(sh.params) /\ \A i \in 1..Len(args) : Conv(sh.params[i], args[i]).ok
+RECURSIVE CallWhyFrom(_, _, _)
+CallWhyFrom(sh, args, i) == IF i > Len(args) THEN ""
+                            ELSE IF Why(sh.params[i], args[i]) # "" THEN Why(sh.params[i], args[i])
+                            ELSE CallWhyFrom(sh, args, i + 1)
+CallWhy(sh, args) == IF Len(args) # Len(sh.params) THEN "arity" ELSE CallWhyFrom(sh, args, 1)
 CallCase(sh, args, what) ==
   LET ok == CallOK(sh, args) IN
-    [tag |-> "conv|fam=call|ty=" \o sh.name \o "|dir=call|v=" \o what \o "|exp=" \o YN(ok) \o "|",
+    [tag |-> "conv|fam=call|ty=" \o sh.name \o "|dir=call|v=" \o what \o "|exp=" \o YN(ok) \o "|why=" \o CallWhy(sh, args) \o "|",
      steps |-> <<[src |-> "(define pv@@ (mk-p 5 \"hi\"))", class |-> "ok"],
                  [src |-> "(define qv@@ (mk-q 7))", class |-> "ok"],
                  [src |-> "(" \o sh.name \o ASrcAll(args) \o ")", class |-> YN(ok),
